@@ -183,6 +183,13 @@ def record_fit(ctx, rng, it, km, X, n, k, d, strategy, kmeans0, seed, max_iter, 
         batches.append(("b", Xb))
     for tag, Xq in batches:
         record_predict(ctx, "%s%s" % (it, tag), km, Xq, k, balanced, site, dtr, gtr, ftr, assoc=Xq.shape[0] <= 100)
+    if strategy != "weights" and not big:
+        # the option is switched on the fitted model (no refit): predictions follow the option as it is now
+        km.set_params(balanced_predictions=not balanced)
+        m3 = rng.randint(k, 16)
+        X3 = numpy.array([[rng.randint(0, 6) for _ in range(d)] for _ in range(m3)], dtype=numpy.float64)
+        record_predict(ctx, "%st" % it, km, X3, k, not balanced, site, dtr, gtr, ftr)
+        km.set_params(balanced_predictions=balanced)
 
 
 def record_predict(ctx, it, km, Xq, k, balanced, site, dtr, gtr, ftr, assoc=True):
